@@ -156,6 +156,14 @@ def check_config(res, model, cfg, methods, finding=None, generated=False):
         verdict = m[3] == "1"
         undeclared = list(m[4])
         res.count("model: unit closed" if verdict else "model: unit not closed")
+        # the thermal units of the same file (EvalHeatingRates / EvalCoolingRates): their own registries and uses
+        for sym, procs in (("kh", list(net.heating)), ("kc", list(net.cooling))):
+            if not procs:
+                continue
+            mt = model.call("sym.unit", macros, registries(procs), tl._assign_rates(sym, procs))
+            res.count(f"model: {sym} unit " + ("closed" if mt[3] == "1" else "not closed"))
+            verdict = verdict and mt[3] == "1"
+            undeclared += list(mt[4])
     for solver, method in methods:
         d = ol.scratch_dir()
         try:
